@@ -44,33 +44,52 @@ def table_semantics(chk, node, where):
 
 
 def tables(chk):
-    single = module_tree(chk, "markers/single.py")
-    generic = module_tree(chk, "specifiers/generic.py")
-    for rel, tree, name in (("markers/single.py", single, "_operators"), ("specifiers/generic.py", generic, "_op_map")):
-        d = const_dict(chk, tree, name, rel)
+    """R03.1 by evaluating the module-level tables in the interpreter (robust to how the dict is built) and probing every entry on
+    sample operand pairs against the PEP 508 semantics."""
+    from ..absint import Interp, PyRaise as _PR
+    from ..strdomain import SEM, CONVERSE
+    it = Interp(str(chk.src))
+    probes = [("a", "ab"), ("ab", "a"), ("a", "a"), ("a", "b"), ("b", "a"), ("", "a"), ("ab", "ab")]
+    single = it.module("dep_logic.markers.single")
+    generic = it.module("dep_logic.specifiers.generic")
+    G = generic.ns.get("GenericSpecifier")
+    chk.require("_operators" in single.ns and G is not None, "anchor _operators / GenericSpecifier missing")
+    for where, name, table in (("dep_logic.markers.single", "_operators", it.resolve(single.ns["_operators"])),
+                               ("dep_logic.specifiers.generic", "_op_map", it.getattr(G, "_op_map"))):
+        chk.require(isinstance(table, dict) and table, f"{where}:{name} is not a table")
         chk.instance("R03.1")
-        mod = "dep_logic." + rel[:-3].replace("/", ".")
-        for k, v in d.items():
-            sem = table_semantics(chk, v, rel)
-            if sem != k:
-                chk.fail("R03.1", f"{mod}:{name}[{k!r}]", f"{name}[{k!r}] implements `{sem}`, PEP 508 says `{k}`")
+        for k, f in table.items():
+            if k not in SEM:
+                chk.fail("R03.1", f"{where}:{name}[{k!r}]", f"{name} has an entry for {k!r}, which is not a PEP 508 comparison operator")
+                continue
+            try:
+                got = [bool(it.truth(it.call(f, [l, r], {}))) for l, r in probes]
+            except _PR as e:
+                chk.fail("R03.1", f"{where}:{name}[{k!r}]", f"{name}[{k!r}] raises {e.exc!r} on string operands")
+                continue
+            exp = [SEM[k](l, r) for l, r in probes]
+            if got != exp:
+                i = next(i for i in range(len(probes)) if got[i] != exp[i])
+                chk.fail("R03.1", f"{where}:{name}[{k!r}]", f"{name}[{k!r}]{probes[i]} is {got[i]}; PEP 508 `{probes[i][0]!r} {k} {probes[i][1]!r}` is {exp[i]}")
             else:
                 chk.ok("R03.1", key=(name, k))
         for need in ("in", "not in", "<", "<=", "==", "!=", ">=", ">"):
-            if need not in d:
-                chk.fail("R03.1", f"{mod}:{name}[{need!r}]", f"{name} lacks operator {need!r}")
-    inv = None
-    for n in ast.walk(generic):
-        if isinstance(n, ast.Assign) and len(n.targets) == 1 and isinstance(n.targets[0], ast.Name) and n.targets[0].id == "invert_map" and isinstance(n.value, ast.Dict):
-            inv = {k.value: v.value for k, v in zip(n.value.keys, n.value.values) if isinstance(k, ast.Constant) and isinstance(v, ast.Constant)}
-    chk.require(inv is not None, "anchor invert_map (GenericSpecifier.__invert__) missing")
+            if need not in table:
+                chk.fail("R03.1", f"{where}:{name}[{need!r}]", f"{name} lacks operator {need!r}")
+    utils = it.module("dep_logic.utils")
+    refl = it.resolve(utils.ns.get("_op_reflect_map"))
+    chk.require(isinstance(refl, dict) and refl, "anchor dep_logic.utils:_op_reflect_map missing")
     chk.instance("R03.1")
-    for k, v in inv.items():
-        if COMPLEMENT.get(k) != v:
-            chk.fail("R03.1", f"dep_logic.specifiers.generic:invert_map[{k!r}]", f"invert_map[{k!r}] = {v!r}; the complement of `{k}` is `{COMPLEMENT.get(k)}`")
+    for k, v in refl.items():
+        if refl.get(v) != k:
+            chk.fail("R03.1", f"dep_logic.utils:_op_reflect_map[{k!r}]", f"_op_reflect_map is not an involution at {k!r}: {k!r} -> {v!r} -> {refl.get(v)!r}")
+        elif k in CONVERSE and CONVERSE[k] != v:
+            chk.fail("R03.1", f"dep_logic.utils:_op_reflect_map[{k!r}]", f"_op_reflect_map[{k!r}] = {v!r}, but the converse of `{k}` is `{CONVERSE[k]}`")
         else:
-            chk.ok("R03.1", key=("invert", k))
-    reflect_map_involution(chk, "R03.1")
+            chk.ok("R03.1", key=("reflect", k))
+    for k in CONVERSE:
+        if k not in refl:
+            chk.fail("R03.1", f"dep_logic.utils:_op_reflect_map[{k!r}]", f"_op_reflect_map lacks operator {k!r}")
 
 
 def atom_texts():
@@ -155,7 +174,8 @@ def contexts(chk, dom):
     cases = [
         ('extra == "e1"', {}, "metadata", False), ('extra != "e1"', {}, "metadata", True),
         ('extra == "E_1"', {"extra": "e-1"}, "metadata", True), ('extra == "e.1"', {"extra": {"E_1", "x"}}, "metadata", True),
-        ('extra == "e1"', {"extra": None}, "metadata", False),
+        ('extra == "e1"', {"extra": None}, "metadata", False), ('extra == "e__1"', {"extra": "e-1"}, "metadata", True),
+        ('extra == "e-.-1"', {"extra": {"E_1"}}, "metadata", True), ('extra != "E.1"', {"extra": "e_1"}, "metadata", False),
         ('"dev" in extras', {}, "lock_file", False), ('"dev" not in extras', {}, "lock_file", True),
         ('"D_ev" in extras', {"extras": {"d-ev"}}, "lock_file", True), ('"docs" in dependency_groups', {"dependency_groups": {"Docs"}}, "lock_file", True),
         ('"docs" not in dependency_groups', {"dependency_groups": {"test"}}, "lock_file", True),
@@ -210,16 +230,61 @@ def prerelease_envs(chk, dom):
                 chk.ok("R03.3", key=(text, val))
 
 
+PEP508_VARIABLES = ["python_version", "python_full_version", "os_name", "os.name", "sys_platform", "sys.platform", "platform_release",
+                    "platform_system", "platform_version", "platform.version", "platform_machine", "platform.machine",
+                    "platform_python_implementation", "platform.python_implementation", "python_implementation", "implementation_name",
+                    "implementation_version", "extra", "extras", "dependency_groups"]
+NOT_VARIABLES = ["python", "version", "os", "platform", "implementation", "extra_", "groups", "and", "or", "in", "not"]
+
+
+def variable_rule(chk):
+    """R03.5: the VARIABLE token rule installed into packaging's tokenizer (markers/__init__._patch_marker_parser) matches exactly the
+    PEP 508 / PEP 751 variable names.  The regex literal is read from the AST and compiled with the stdlib `re` (a pure constant)."""
+    import re
+    tree = module_tree(chk, "markers/__init__.py")
+    fn = next((n for n in ast.walk(tree) if isinstance(n, ast.FunctionDef) and n.name == "_patch_marker_parser"), None)
+    chk.require(fn is not None, "anchor _patch_marker_parser missing")
+    pat = None
+    for n in ast.walk(fn):
+        if isinstance(n, ast.Assign) and isinstance(n.targets[0], ast.Subscript) and isinstance(n.value, ast.Call) and ast.unparse(n.value.func) == "re.compile":
+            key = n.targets[0].slice
+            if isinstance(key, ast.Constant) and key.value == "VARIABLE" and n.value.args and isinstance(n.value.args[0], ast.Constant):
+                flags = 0
+                for a in n.value.args[1:]:
+                    for nm in ast.walk(a):
+                        if isinstance(nm, ast.Attribute) and nm.attr in ("VERBOSE", "X"):
+                            flags |= re.VERBOSE
+                        if isinstance(nm, ast.Attribute) and nm.attr in ("IGNORECASE", "I"):
+                            flags |= re.IGNORECASE
+                pat = re.compile(n.value.args[0].value, flags)
+    chk.require(pat is not None, "VARIABLE rule literal not found in _patch_marker_parser")
+    chk.instance("R03.5")
+    for v in PEP508_VARIABLES:
+        m = pat.match(v)
+        if not m or m.end() != len(v):
+            chk.fail("R03.5", f"dep_logic.markers:_patch_marker_parser:VARIABLE:{v}", f"the VARIABLE token rule does not match the marker variable {v!r} completely")
+        else:
+            chk.ok("R03.5", key=v)
+    for v in NOT_VARIABLES:
+        m = pat.match(v)
+        if m and m.end() == len(v):
+            chk.fail("R03.5", f"dep_logic.markers:_patch_marker_parser:VARIABLE:{v}", f"the VARIABLE token rule accepts {v!r}, which is not a marker variable")
+        else:
+            chk.ok("R03.5", key=("not", v), nontrivial=False)
+
+
 def run(chk):
     src = str(chk.src)
     chk.explanation = (
         "Operator tables extracted from the AST and compared with the PEP 508 vocabulary; bounded ABSINT of parse_marker/_build_markers and "
         "evaluate from source on marker texts generated from a PEP 508 grammar, against an independent grammar + semantics (own parser, PEP 440 "
         "model) on an environment grid. The reference is the PEP 508 semantics packaging implements, not packaging's code.")
-    chk.rule("R03.1", "operator tables agree with PEP 508 (canonical comparison, complement, converse)", min_instances=4)
+    chk.rule("R03.1", "operator tables agree with PEP 508 (each entry probed on operand pairs; reflect map = converse, involution)", min_instances=3)
     chk.rule("R03.2", "parse_marker(text) denotes the PEP 508 meaning of the text")
     chk.rule("R03.3", "evaluate(): compound plumbing, context defaults, PEP 685 normalisation", min_instances=10)
     tables(chk)
+    chk.rule("R03.5", "VARIABLE token rule matches exactly the marker variable names", min_instances=1)
+    variable_rule(chk)
     dom = mx.domain(src)
     atoms = atom_texts()
     texts = list(atoms)
